@@ -50,7 +50,7 @@ def judge(lab, st, step, T, cfg):
                             'step %d: member %d = %r has stored energy %r but the objective there is %r' % (step, i, m, e, want)))
                 break
     eh = snap['ehist']
-    if eh and not isinstance(bestE, tuple) and not (bestE <= eh[0] or (bestE != bestE)):
+    if eh and not isinstance(bestE, tuple) and cfg.get('continue') != 'NewPenalty' and not (bestE <= eh[0] or (bestE != bestE)):
         out.append(({'clause': 'worse_than_initial'}, 'step %d: bestEnergy %r is worse than the initial energy %r' % (step, bestE, eh[0])))
     return out
 
@@ -72,6 +72,8 @@ def history_of(cfg, nsteps):
         op = ['SetConstraints', cfg.get('constraint')]
     elif mid == 'SetEvaluationLimits':
         op = ['SetEvaluationLimits', 50, None, True]
+    elif mid == 'NewPenalty':           # a setting that CHANGES mid-run: from here on the energies include it
+        op = ['SetPenalty', 'const']
     else:
         raise KeyError(mid)
     return [['Step']] * k + [op] + [['Step']] * (nsteps - k)
@@ -99,6 +101,7 @@ def run_config(cfg, nsteps, T):
             break
         if op[0] != 'Step':
             T.count('transitions')
+            st.update(op)           # (a no-op for the operations that re-state the current settings)
             continue
         k += 1
         T.count('transitions')
@@ -203,8 +206,8 @@ def configs(ctx):
     # identity on a single value
     for solver in solverlab.SOLVERS:
         for cost in ('vec', 'vec1'):
-            for red in ('sum', 'max', 'sumsq', 'rms'):
-                for pen in (None, 'const', 'ramp'):
+            for red in ('sum', 'max', 'sumsq', 'rms', 'max2', 'mul2', 'first2'):
+                for pen in (None, 'const', 'ramp') if not red.endswith('2') else (None, 'ramp'):
                     for con in (None, 'clamp/pure'):
                         out.append({'solver': solver, 'dim': 2, 'cost': cost, 'x0': [0.8, -0.4], 'box': None, 'reducer': red,
                                     'constraint': con, 'penalty': pen, 'seed': ctx.seed, 'term': 'never', 'horizon': 5000})
@@ -226,6 +229,19 @@ def configs(ctx):
                                         out.append({'solver': solver, 'dim': dim, 'cost': cost, 'x0': x0, 'box': box, 'tight': t, 'clip': c,
                                                     'constraint': con, 'penalty': 'ramp' if mid == 'SetPenalty' else None, 'seed': seed,
                                                     'term': 'never', 'horizon': 5000, 'continue': mid, 'continue_after': after})
+    # a setting installed mid-run (after the initial evaluation only, after 2 and after 3 Steps): the reported energies must
+    # include it from the next iteration on
+    # (Powell only: it carries one point that every iteration re-evaluates.  The population solvers keep the members'
+    #  energies of the old objective until each member is replaced - the statement does not say what a stored energy means
+    #  across a change of objective, so that is not judged here; C04 cuts its monotonicity segments at the same place)
+    for solver in ('Powell',):
+        for cost in ('sphere', 'steps', 'absum'):
+            for box in (None, 'unit'):
+                for mid in ('NewPenalty',):
+                    for after in (1, 2, 3):
+                        out.append({'solver': solver, 'dim': 2, 'cost': cost, 'x0': solverlab.STARTS[2][0], 'box': box, 'tight': None, 'clip': None,
+                                    'constraint': None, 'penalty': None, 'seed': ctx.seed, 'term': 'never', 'horizon': 5000,
+                                    'continue': mid, 'continue_after': after})
     return out
 
 
@@ -246,7 +262,7 @@ def run(ctx):
     ctx.bounds = {'configurations': len(cfgs), 'wrapper_configurations': len(wcfgs), 'steps_per_run': nsteps,
                   'solvers': list(solverlab.SOLVERS), 'modes(tight,clip)': MODES, 'constraints': CONS, 'penalties': PENS,
                   'boxes': ['none', 'unit', 'degen', 'onesided'], 'costs': ['sphere', 'absum', 'steps', 'infwall', 'illq', 'vec+reducer', 'vec1+reducer'],
-                  'reducers': ['sum', 'max', 'sumsq', 'rms'],
+                  'reducers': ['sum', 'max', 'sumsq', 'rms', 'max2 / mul2 / first2 (two-argument form, folded)'],
                   'continued_runs': {'operations': ['Finalize', 'SetPenalty(same)', 'SetStrictRanges(same)', 'SetConstraints(same)', 'SetEvaluationLimits(new)'],
                                      'boxes': ['neg', 'shift', 'unit'], 'count': len([c for c in cfgs if c.get('continue')])}}
     ctx.rule = ("full product of the configuration alphabet (incompatible constraint/box pairs removed by a mechanical "
